@@ -374,8 +374,18 @@ type facts struct {
 	StringLists  map[string][]string `json:"stringLists"`
 	Effects      map[string][]effect `json:"effects"`
 	Fingerprints map[string]string   `json:"fingerprints"`
+	Raw          map[string]any      `json:"raw,omitempty"`
 	Errors       []string            `json:"errors"`
 }
+
+// rawSpec is a property-specific extractor (registered from a cfg_cxx.go init) that renders its own
+// Lean definition(s); jsonVal is what goes to facts.json under "raw".
+type rawSpec struct {
+	lean, group string
+	gen         func() (leanDef string, jsonVal any)
+}
+
+var rawSpecs []rawSpec
 
 type kv struct {
 	Key string `json:"key"`
@@ -481,6 +491,18 @@ func main() {
 		f.Fingerprints[key] = p.fingerprint(fd)
 	}
 
+	// ---- raw (property-specific) facts ----
+	rawLean := map[string]string{}
+	for _, rs := range rawSpecs {
+		def, jv := rs.gen()
+		rawLean[rs.lean] = def
+		if f.Raw == nil {
+			f.Raw = map[string]any{}
+		}
+		f.Raw[rs.lean] = jv
+		f.Groups[grp(rs.group)] = append(f.Groups[grp(rs.group)], "raw:"+rs.lean)
+	}
+
 	f.Errors = errs
 
 	// ---- Lean: one file per group ----
@@ -521,6 +543,8 @@ func main() {
 					b.WriteString(leanBytes(e))
 				}
 				b.WriteString("]\n")
+			case "raw":
+				b.WriteString(rawLean[name])
 			case "eff":
 				fmt.Fprintf(&b, "def %s : List Pk.EffAt := [", name)
 				for i, e := range f.Effects[name] {
